@@ -9,6 +9,13 @@ import CG.Props.C04
 import CG.Props.C08
 import CG.Props.C13
 import CG.Proofs.Sens
+import CG.Proofs.SensESem
+import CG.Proofs.SensEInf
+import CG.Proofs.SensECount
+import CG.Proofs.SensEAvg
+import CG.Proofs.SensEOk
+import CG.Proofs.SensEInfOk
+import CG.Dpll
 namespace CG.C11
 
 /-- the circuits the statement ranges over: lint-clean, blackbox-free, no `x` constants -/
@@ -340,6 +347,211 @@ theorem sensitivity_startpoint (s : Solver) (c : Circuit) (n : Name) (ord : Ord)
   rw [hsp]
   simp only [hc, if_true]
 
+/-! ### selected endpoints, influence, average sensitivity -/
+
+/-- **C11 (sensitization_transform, selected endpoints).** with a non-empty endpoint list `E` the transform works on
+    the cone of `E` (outputs exactly `E`): for every consistent valuation of the result, copy 0 is a consistent valuation
+    of that cone, copy 1 is the cone with `n` inverted, the cone's inputs are tied, and `sat` is 1 exactly when
+    inverting `n` changes one of the selected endpoints -/
+theorem sensitization_endpoints_sem (c m : Circuit) (n : Name) (E : List Name) (ord : Ord)
+    (ordE : List (Name × Name) → List (Name × Name)) (hord : OrdOK ord) (hordE : ∀ l, (ordE l).Perm l)
+    (hc : Good c) (hE : E ≠ []) (tfi : List Name) (htfi : Query.transitiveFanin c E = .ok tfi)
+    (hin : ∃ s ∈ c.inputs, s ∈ E ++ tfi)
+    (h : Tx.sensitizationTransform c n E ord ordE = .ok m) (v : Val) (hv : Consistent m v) :
+    let cone := Tx.inducedSub c (E ++ tfi)
+    n ∈ E ++ tfi ∧
+    Consistent cone (fun x => v ("c0_" ++ x)) ∧
+    Inverted cone n (fun x => v ("c0_" ++ x)) (fun x => v ("c1_" ++ x)) ∧
+    (∀ s ∈ cone.inputs, v ("c0_" ++ s) = v s) ∧
+    (v "sat" = true ↔ ∃ e ∈ E, v ("c0_" ++ e) ≠ v ("c1_" ++ e)) := by
+  obtain ⟨sc, m0, sp, ep, X⟩ := SensE.eview hord hordE hc.clean hc.nobb hE htfi hin h
+  intro cone
+  exact ⟨X.hn, X.sem v hv⟩
+
+/-- every (valuation of the cone, inverted valuation) pair arises -/
+theorem sensitization_endpoints_complete (c m : Circuit) (n : Name) (E : List Name) (ord : Ord)
+    (ordE : List (Name × Name) → List (Name × Name)) (hord : OrdOK ord) (hordE : ∀ l, (ordE l).Perm l)
+    (hc : Good c) (hE : E ≠ []) (tfi : List Name) (htfi : Query.transitiveFanin c E = .ok tfi)
+    (hin : ∃ s ∈ c.inputs, s ∈ E ++ tfi)
+    (h : Tx.sensitizationTransform c n E ord ordE = .ok m)
+    (v0 w : Val) (hv0 : Consistent (Tx.inducedSub c (E ++ tfi)) v0) (hw : Inverted (Tx.inducedSub c (E ++ tfi)) n v0 w) :
+    ∃ v, Consistent m v ∧ (∀ x ∈ E ++ tfi, v ("c0_" ++ x) = v0 x ∧ v ("c1_" ++ x) = w x) ∧
+      (∀ s ∈ (Tx.inducedSub c (E ++ tfi)).inputs, v s = v0 s) := by
+  obtain ⟨sc, m0, sp, ep, X⟩ := SensE.eview hord hordE hc.clean hc.nobb hE htfi hin h
+  exact X.complete v0 w hv0 hw.1 hw.2.1 hw.2.2
+
+/-- **C11 (influence, exact mode).** with any sound and complete solver, `props.influence(c, n, approx=False)` returns one
+    entry per startpoint `s` of `n`; its value is `count / 2^|sp|` where `count` is the number of valuations of the
+    startpoints of `n` under which flipping `s` flips `n` (in an acyclic circuit every valuation of the startpoints
+    extends to exactly one valuation of the cone) -/
+theorem influence_spec (s : Solver) (hs : SolverSpec s) (c : Circuit) (n : Name) (ord : Ord)
+    (ordE : List (Name × Name) → List (Name × Name)) (hord : OrdOK ord) (hordE : ∀ l, (ordE l).Perm l)
+    (hc : Good c) (hacyc : Acyclic c) (hn : c.has n = true)
+    (sp : List Name) (hsp : Query.startpoints c [n] = .ok sp) (hne : sp ≠ [])
+    (tfi : List Name) (htfi : Query.transitiveFanin c [n] = .ok tfi)
+    (r : List (Name × Nat × Nat)) (h : Props.influence s c n ord ordE = .ok r) :
+    let cone := Tx.inducedSub c (n :: tfi)
+    r.map (·.1) = ord sp ∧
+    ∀ p ∈ r, p.2.2 = sp.length ∧
+      ∃ L : List (List Bool), L.Nodup ∧ L.length = p.2.1 ∧
+        ∀ bs, bs ∈ L ↔ ∃ v, Consistent cone v ∧ sp.map v = bs ∧ FlipsN cone n p.1 v := by
+  intro cone
+  unfold Props.influence at h
+  rw [hsp] at h
+  dsimp only at h
+  obtain ⟨hmap, hall⟩ := SensE.mapM_inv _ (fun p : Name × Nat × Nat => p.1) (by
+    intro x p hx
+    cases hT : Tx.sensitizationTransform c x [n] ord ordE with
+    | error e => rw [hT] at hx; cases hx
+    | ok m =>
+      rw [hT] at hx
+      dsimp only at hx
+      cases hM : modelCount s m ord [("sat", true)] with
+      | error e => rw [hM] at hx; cases hx
+      | ok cnt =>
+        rw [hM] at hx
+        injection hx with hx
+        rw [← hx]) _ _ h
+  refine ⟨hmap, ?_⟩
+  intro p hp
+  have hp1 : p.1 ∈ ord sp := by rw [← hmap]; exact List.mem_map.2 ⟨p, hp, rfl⟩
+  have hf := hall p hp
+  cases hT : Tx.sensitizationTransform c p.1 [n] ord ordE with
+  | error e => rw [hT] at hf; cases hf
+  | ok m =>
+    rw [hT] at hf
+    dsimp only at hf
+    obtain ⟨L, hnd, hcnt, hmem⟩ := SensE.count_one s hs hord hordE hc.clean hc.nobb hc.nox hn hsp htfi
+      ((Sens.ord_mem hord sp _).1 hp1) hT
+    rw [hcnt] at hf
+    injection hf with hf
+    have h2 : p.2.2 = sp.length := by rw [← hf]; exact (hord sp).length_eq
+    have h1 : L.length = p.2.1 := by rw [← hf]
+    exact ⟨h2, L, hnd, h1, hmem⟩
+
+/-! `influence_ok` as first stated (hypotheses `Good c`, `Acyclic c`, `c.has n`, `sp ≠ []` only) is FALSE: the transform
+    builds its sub-circuit with `Circuit.add` (names must be non-empty and must not start with a digit; `subcircuit` raises
+    NotImplementedError on blackbox pin nodes) and its miter ties every startpoint by a new input of the same name next to
+    the synthesised nodes `sat`, `c0_*`, `c1_*`, `dif_*`.  Three lint-clean, blackbox-free, acyclic counterexamples, each
+    with a single startpoint feeding the buffer `g`; `influence` fails for every solver: -/
+
+/-- an input called `sat` (clashes with the miter's `sat` node: ValueError) -/
+def cexSat : Circuit :=
+  { nodes := [("sat", { ty := some "input", out := some false }), ("g", { ty := some "buf", out := some true })],
+    edges := [("sat", "g")] }
+/-- an input whose name starts with a digit (`add` refuses it: ValueError) -/
+def cexDigit : Circuit :=
+  { nodes := [("0a", { ty := some "input", out := some false }), ("g", { ty := some "buf", out := some true })],
+    edges := [("0a", "g")] }
+/-- a `bb_output` node in a circuit without blackboxes (`subcircuit`: NotImplementedError) -/
+def cexPin : Circuit :=
+  { nodes := [("p", { ty := some "bb_output", out := some false }), ("g", { ty := some "buf", out := some true })],
+    edges := [("p", "g")] }
+
+theorem influence_ok_needs_hclash :
+    Good cexSat ∧ Acyclic cexSat ∧ cexSat.has "g" = true ∧ (Query.startpoints cexSat ["g"]).toOption = some ["sat"] ∧
+    ∀ s : Solver, ¬ ∃ r, Props.influence s cexSat "g" id id = .ok r := by
+  refine ⟨⟨?_, rfl, by decide⟩, ⟨fun x => if x = "g" then 1 else 0, by decide⟩, by decide, by decide +kernel,
+    fun s => SensE.influence_fails s cexSat "g" "sat" [] (by decide +kernel) (by decide +kernel)⟩
+  exact Limit.lintClean_of_checks cexSat ⟨by decide, by decide, by decide⟩ (by decide) (by decide) (by decide)
+
+theorem influence_ok_needs_hnames :
+    Good cexDigit ∧ Acyclic cexDigit ∧ cexDigit.has "g" = true ∧
+    (Query.startpoints cexDigit ["g"]).toOption = some ["0a"] ∧
+    ∀ s : Solver, ¬ ∃ r, Props.influence s cexDigit "g" id id = .ok r := by
+  refine ⟨⟨?_, rfl, by decide⟩, ⟨fun x => if x = "g" then 1 else 0, by decide⟩, by decide, by decide +kernel,
+    fun s => SensE.influence_fails s cexDigit "g" "0a" [] (by decide +kernel) (by decide +kernel)⟩
+  exact Limit.lintClean_of_checks cexDigit ⟨by decide, by decide, by decide⟩ (by decide) (by decide) (by decide)
+
+theorem influence_ok_needs_hnbb :
+    Good cexPin ∧ Acyclic cexPin ∧ cexPin.has "g" = true ∧ (Query.startpoints cexPin ["g"]).toOption = some ["p"] ∧
+    ∀ s : Solver, ¬ ∃ r, Props.influence s cexPin "g" id id = .ok r := by
+  refine ⟨⟨?_, rfl, by decide⟩, ⟨fun x => if x = "g" then 1 else 0, by decide⟩, by decide, by decide +kernel,
+    fun s => SensE.influence_fails s cexPin "g" "p" [] (by decide +kernel) (by decide +kernel)⟩
+  exact Limit.lintClean_of_checks cexPin ⟨by decide, by decide, by decide⟩ (by decide) (by decide) (by decide)
+
+/-- hence the first statement of `influence_ok` (without `hnames`, `hnbb`, `hclash`) is refuted outright -/
+theorem influence_ok_needs_hyps :
+    ¬ ∀ (s : Solver) (_ : SolverSpec s) (c : Circuit) (n : Name) (ord : Ord)
+        (ordE : List (Name × Name) → List (Name × Name)) (_ : OrdOK ord) (_ : ∀ l, (ordE l).Perm l)
+        (_ : Good c) (_ : Acyclic c) (_ : c.has n = true)
+        (sp : List Name) (_ : Query.startpoints c [n] = .ok sp) (_ : sp ≠ []),
+        ∃ r, Props.influence s c n ord ordE = .ok r := by
+  intro hall
+  obtain ⟨hg, hac, hn, hsp, hfail⟩ := influence_ok_needs_hclash
+  exact hfail SensE.idealSolver (hall SensE.idealSolver SensE.idealSolver_spec cexSat "g" id id
+    (fun l => List.Perm.refl l) (fun l => List.Perm.refl l) hg hac hn ["sat"] (SensE.ok_of_toOption hsp) (by simp))
+
+/-- the model never fails on such inputs.
+    ADDED hypotheses (the statement without them is false, see `influence_ok_needs_*` above), all about the cone
+    `n :: tfi` of `n` only:
+    `hnames` — every node of the cone has a name `Circuit.add` accepts (non-empty, not starting with a digit);
+    `hnbb` — no node of the cone is a blackbox pin (`bb_input` / `bb_output`);
+    `hclash` — no startpoint of `n` is called `sat` or carries a `c0_` / `c1_` / `dif_` prefix (as in `C04.miter_ok`). -/
+theorem influence_ok (s : Solver) (hs : SolverSpec s) (c : Circuit) (n : Name) (ord : Ord)
+    (ordE : List (Name × Name) → List (Name × Name)) (hord : OrdOK ord) (hordE : ∀ l, (ordE l).Perm l)
+    (hc : Good c) (hacyc : Acyclic c) (hn : c.has n = true)
+    (sp : List Name) (hsp : Query.startpoints c [n] = .ok sp) (hne : sp ≠ [])
+    (tfi : List Name) (htfi : Query.transitiveFanin c [n] = .ok tfi)
+    (hnames : ∀ x ∈ n :: tfi, x ≠ "" ∧ Circuit.isDigit0 x = false)
+    (hnbb : ∀ x ∈ n :: tfi, c.ty? x ≠ some "bb_input" ∧ c.ty? x ≠ some "bb_output")
+    (hclash : ∀ s ∈ sp, s ≠ "sat" ∧ (∀ x, s ≠ "c0_" ++ x) ∧ (∀ x, s ≠ "c1_" ++ x) ∧ (∀ x, s ≠ "dif_" ++ x)) :
+    ∃ r, Props.influence s c n ord ordE = .ok r := by
+  apply SensE.influence_ok_core s hs hord hordE hc.clean hc.nobb hc.nox hn hsp htfi ?_ hnbb hclash
+  intro x hx
+  refine ⟨(hnames x hx).2, ?_⟩
+  cases he : x.isEmpty with
+  | false => rfl
+  | true => exact absurd (String.isEmpty_iff.1 he) (hnames x hx).1
+
+/-- all Boolean vectors of a given length -/
+def allBools : Nat → List (List Bool)
+  | 0 => [[]]
+  | k + 1 => (allBools k).flatMap (fun l => [false :: l, true :: l])
+
+/-- glue: the helper files use a copy of `allBools` -/
+theorem allBools_eq : ∀ k, allBools k = SensE.allBoolsF k
+  | 0 => rfl
+  | k + 1 => by
+    rw [allBools, SensE.allBoolsF, allBools_eq k]
+
+/-- **C11 (avg_sensitivity, exact mode).** the returned value `tot / 2^|sp|` is the sum of the influences, and that sum
+    is the average, over all valuations of the startpoints, of the number of startpoints whose flip flips `n`
+    (so avg_sensitivity ≤ sensitivity): `tot` = Σ over valuations of the size of the flip set -/
+theorem avg_sensitivity_spec (s : Solver) (hs : SolverSpec s) (c : Circuit) (n : Name) (ord : Ord)
+    (ordE : List (Name × Name) → List (Name × Name)) (hord : OrdOK ord) (hordE : ∀ l, (ordE l).Perm l)
+    (hc : Good c) (hacyc : Acyclic c) (hn : c.has n = true)
+    (sp : List Name) (hsp : Query.startpoints c [n] = .ok sp) (hne : sp ≠ [])
+    (tfi : List Name) (htfi : Query.transitiveFanin c [n] = .ok tfi)
+    (tot k : Nat) (h : Props.avgSensitivity s c n ord ordE = .ok (tot, k)) :
+    let cone := Tx.inducedSub c (n :: tfi)
+    k = sp.length ∧
+    (∀ r, Props.influence s c n ord ordE = .ok r → tot = (r.map (·.2.1)).sum) ∧
+    ∃ f : List Bool → Nat,
+      (∀ v S, Consistent cone v → FlipSet cone n sp v S → S.length = f (sp.map v)) ∧
+      tot = ((allBools sp.length).map f).sum := by
+  intro cone
+  unfold Props.avgSensitivity at h
+  cases hI : Props.influence s c n ord ordE with
+  | error e => rw [hI] at h; cases h
+  | ok r =>
+    rw [hI] at h
+    injection h with h
+    injection h with htot hk
+    obtain ⟨hnames, hr⟩ := influence_spec s hs c n ord ordE hord hordE hc hacyc hn sp hsp hne tfi htfi r hI
+    have hlen : r.length = sp.length := by
+      have := congrArg List.length hnames
+      rw [List.length_map, (hord sp).length_eq] at this
+      exact this
+    refine ⟨by rw [← hk, hlen], ?_, ?_⟩
+    · intro r' hr'
+      injection hr' with hr'
+      rw [← hr', ← htot]
+    · obtain ⟨f, hf1, hf2⟩ := SensE.avg_core hord hc.clean hc.nox hacyc hn hsp htfi r hnames
+        (fun p hp => (hr p hp).2)
+      refine ⟨f, fun v S hv hS => hf1 v S hv hS, ?_⟩
+      rw [← htot, hf2, allBools_eq]
+
 /-! non-vacuity -/
 def ex : Circuit :=
   { nodes := [("a", { ty := some "input", out := some false }), ("b", { ty := some "input", out := some false }),
@@ -350,5 +562,25 @@ example : (Tx.sensitivityTransform ex "g" id).toOption.map (fun m => m.outputs.l
 example : Good ex := by
   refine ⟨?_, rfl, by decide⟩
   exact Limit.lintClean_of_checks ex ⟨by decide, by decide, by decide⟩ (by decide) (by decide) (by decide)
+
+example : (Props.influence Dpll.dpll ex "g" id id).toOption = some [("a", 2, 2), ("b", 2, 2)] := by decide +kernel
+/-- the added hypotheses of `influence_ok` hold for the example (`n = "g"`, cone `g, a, b`, startpoints `a, b`) -/
+example : (Query.transitiveFanin ex ["g"]).toOption = some ["a", "b"] ∧
+    (Query.startpoints ex ["g"]).toOption = some ["a", "b"] ∧
+    (∀ x ∈ ["g", "a", "b"], x ≠ "" ∧ Circuit.isDigit0 x = false) ∧
+    (∀ x ∈ ["g", "a", "b"], ex.ty? x ≠ some "bb_input" ∧ ex.ty? x ≠ some "bb_output") ∧
+    (∀ s ∈ ["a", "b"], s ≠ "sat" ∧ (∀ x, s ≠ "c0_" ++ x) ∧ (∀ x, s ≠ "c1_" ++ x) ∧ (∀ x, s ≠ "dif_" ++ x)) := by
+  refine ⟨by decide +kernel, by decide +kernel, by decide, by decide, ?_⟩
+  intro s hs
+  simp only [List.mem_cons, List.not_mem_nil, or_false] at hs
+  have key : ∀ (p x : String), p.length = 3 ∨ p.length = 4 → s.length = 1 → s ≠ p ++ x := by
+    intro p x hp hl e
+    rw [e, String.length_append] at hl
+    omega
+  have hl : s.length = 1 := by rcases hs with rfl | rfl <;> decide
+  refine ⟨?_, fun x => key "c0_" x (by decide) hl, fun x => key "c1_" x (by decide) hl,
+    fun x => key "dif_" x (by decide) hl⟩
+  rcases hs with rfl | rfl <;> decide
+example : (Props.avgSensitivity Dpll.dpll ex "g" id id).toOption = some (4, 2) := by decide +kernel
 
 end CG.C11
